@@ -18,8 +18,8 @@ from .c10 import phi_leaves
 
 MANIFEST = {
     "level": "other",
-    "technique": "static analysis: operator conformance by symbolic evaluation against the data-model meaning of each special method, must-pass-through / positional dataflow of the input forms of Epoch.set (partial evaluation per form), structural check of the day-fraction split, effect analysis",
-    "text": "All Epoch operators are shown to translate or compare the stored JDE exactly as named, with reflected and in-place forms agreeing and operands untouched; all input forms (numbers, tuple/list, date/datetime, copy, JDE) are shown to reach the one conversion routine with hours, minutes and seconds folded with the right divisors in the right positions. The 1e-8 / 1e-9 round-trip tolerances and canonical field ranges at boundaries are floating-point facts and are not decided.",
+    "technique": "static analysis: operator conformance by symbolic evaluation against the data-model meaning of each special method, must-pass-through / positional dataflow of the input forms of Epoch.set (partial evaluation per form, component-by-component comparison of what each form hands to the validator), structural check of the day-fraction split, effect analysis",
+    "text": "All Epoch operators are shown to translate or compare the stored JDE exactly as named, with reflected and in-place forms agreeing and operands untouched; all input forms (numbers, tuple/list, date/datetime, copy, JDE) are shown to reach the one conversion routine with hours, minutes and seconds folded with the right divisors in the right positions, each form handing over its own components in calendar order (a datetime including its microseconds). The 1e-8 / 1e-9 round-trip tolerances and canonical field ranges at boundaries are floating-point facts and are not decided.",
     "note": "Trusted: Python data model; DAY2HOURS/DAY2MIN/DAY2SEC literals are checked against 24/1440/86400. Undecided: round-trip tolerances, canonical h/m/s at boundaries, monotone date tuple.",
 }
 MOD, CLS = "Epoch", "Epoch"
